@@ -8,3 +8,28 @@ CHECKS["C13"] = (
  "StreamLexer is driven by 1.5*10^6 (quick) / 4*10^7 (thorough) random histories over random reader chunk schedules (zero-length reads, EOF/error with or after the last bytes, failure at a random offset), initial sizes 0..4096 and five Free disciplines; every result is compared with a reference cursor, every returned slice is shadow-copied and re-compared after each call while protected, ShiftLen is compared with the model, hook H2 pool invariants are asserted at each quiescent point, and held memory / allocation are measured on streams of length L and 8L. Held on what was observed.",
  "Trusts the reference cursor and the reading of the protection threshold recorded in DESIGN.md §4 C13; memory clause decided against the bound 32*(bufsize+k*longest)+4 KiB with full-buffer reads for the delayed discipline (see DESIGN).",
  "DESIGN.md §4 C13")
+CHECKS["C01"] = (
+ "hostile-input workloads under panic/fatal-error, pointer-range, call-bound, sticky-end and stack monitors in child processes (runtime monitoring)",
+ "6*10^5 (quick) / 1.8*10^7 (thorough) hostile byte strings are fed to 14 streaming entry points x 4 Input constructors and to js.Parse x 4 Options; every call runs under recover(), children are watched for fatal errors, every slice handed out is classified against the input buffer, the number of calls until the terminal report is bounded by 4*len+64, the terminal report must repeat, error offsets (hook H1) must lie inside the input, accepted trees are printed/walked/converted, and 69 recursive constructs are nested 10^3..10^6 deep with the stack high-water measured. Held on what was observed.",
+ "A hang is decided by CPU time (90 s in a batch, 600 s alone). 'Terminal report' is read as an Error result that does not advance the cursor and repeats identically (weakest reading covering sticky lexer errors such as XML NUL).",
+ "DESIGN.md §4 C01")
+CHECKS["C14"] = (
+ "differential monitors against strconv/math/big on boundary-centred generated inputs, dst canaries (runtime monitoring)",
+ "1.6*10^6 (quick) / 4.3*10^7 (thorough) cases (about 10 evaluations each): parsers compared with a longest-prefix reference and math/big / strconv.ParseFloat within the stated 1e-14, formatters checked for well-formedness, sign, parse-back window and destination preservation, AppendNumber/ParseNumber round trip over multi-byte symbols. Held on what was observed.",
+ "Tolerances and readings are those of DESIGN.md §4 C14 (AppendFloat: at least prec correct leading digits, truncated). Trusts strconv/math/big.",
+ "DESIGN.md §4 C14")
+CHECKS["C16"] = (
+ "differential monitors against regexp, net/url, encoding/base64, mime and byte-wise references, canaries on in-place regions (runtime monitoring)",
+ "2.1*10^6 (quick) / 6.2*10^7 (thorough) cases around the syntax boundaries of Number, Dimension, EncodeURL/DecodeURL, DataURI, Mediatype, EqualFold/ToLower/TrimWhitespace/IsAllWhitespace and the css/html hash tables (all 256 byte values, every constant, near-miss non-members). Held on what was observed.",
+ "Mediatype compared with mime only on generated well-formed lower-case unquoted values; DecodeURL with url.QueryUnescape only where that succeeds. Trusts the standard library references.",
+ "DESIGN.md §4 C16")
+CHECKS["C17"] = (
+ "reference-model and read-back monitors (regexp, html.UnescapeString, the library's own lexers) on fragment-built strings (runtime monitoring)",
+ "1.05*10^6 (quick) / 4*10^7 (thorough) cases: whitespace function vs regexp, ReplaceEntities for length, idempotence and decoded-text preservation over consistent entity maps, combined function vs sequence, html/xml EscapeAttrVal read back through the lexers with the documented quoting decision, EscapeCDATAVal un-escape. Held on what was observed.",
+ "Decoded text is html.UnescapeString repaired for two stdlib deviations (numeric references above 0x10FFFF, empty hexadecimal reference) and with NUL/U+FFFD identified; entity maps are consistent with HTML and in normal form.",
+ "DESIGN.md §4 C17")
+CHECKS["C19"] = (
+ "reference-model monitor (bytes.Reader + encoding/binary) over typed write/read scripts on eight backends with truncation at every byte, Go race detector for parallel ReadAt (runtime monitoring)",
+ "7.5*10^4 (quick) / 2.1*10^6 (thorough) cases: BinaryWriter bytes compared with encoding/binary, every read on every backend compared with a model {data,pos,eof}, Seek compared with bytes.Reader for all (whence, target), Read/ReadAt io contracts, Bitmap round trip and 8*len bits, and goroutines doing parallel ReadAt on one reader and on clones under the -race build. Held on what was observed.",
+ "Readings of the short-read and Seek-beyond-end cases are listed in the evidence assumptions. Race clause rests on the Go race detector's happens-before analysis of the executions produced.",
+ "DESIGN.md §4 C19")
